@@ -1,10 +1,13 @@
 //go:build verif
 
 // Contracts for package searcher: BooleanSearcher at protocol level (read by /verif/gocv;
-// comment-only effect with the verif tag off). What is proved: Advance and initSearchers only make
-// calls on the must / should / must-not children that satisfy the Searcher contract (a child is
-// only advanced to a target beyond its own cursor), nothing panics, and the state handed to Next
-// satisfies the representation invariant. Next's merge loop is not under contract (trusted).
+// comment-only effect with the verif tag off). What is proved: Next, Advance, initSearchers and
+// advanceNextMust only make calls on the must / should / must-not children that satisfy the
+// Searcher contract (a child is only advanced to a target beyond its own cursor), nothing panics,
+// the representation invariant is preserved, the ids returned are strictly ascending, each is the
+// id of the driving child's match (must if there is a must clause, otherwise should), and Advance
+// lands at or after its target. NOT stated: which candidates are accepted (must AND should>=min AND
+// NOT must-not as sets) - that is the set level of C02 and is not under contract for this searcher.
 
 package searcher
 
@@ -22,28 +25,65 @@ package searcher
 //@ spec boolCurrent(s *BooleanSearcher) bool = implies(s.mustSearcher != nil && s.currMust != nil, s.currentID != nil && idKey(s.currentID) == dmKey(s.currMust)) && \
 //@     implies(s.mustSearcher == nil && s.currShould != nil, s.currentID != nil && idKey(s.currentID) == dmKey(s.currShould)) && \
 //@     implies((s.mustSearcher != nil && s.currMust == nil) || (s.mustSearcher == nil && s.currShould == nil), s.currentID == nil)
-//@ spec boolInv(s *BooleanSearcher) bool = boolSlot(s.mustSearcher, s.currMust, s.initialized) && boolSlot(s.shouldSearcher, s.currShould, s.initialized) && boolSlot(s.mustNotSearcher, s.currMustNot, s.initialized) && \
-//@     boolApart(s) && implies(s.initialized, boolCurrent(s))
+// the candidate lies beyond the last id this searcher returned
+//@ spec boolAhead(s *BooleanSearcher) bool = implies(s.started && s.currentID != nil, idKey(s.currentID) > s.last)
+//@ spec boolSlots(s *BooleanSearcher) bool = boolSlot(s.mustSearcher, s.currMust, s.initialized) && boolSlot(s.shouldSearcher, s.currShould, s.initialized) && boolSlot(s.mustNotSearcher, s.currMustNot, s.initialized)
+//@ spec boolInv(s *BooleanSearcher) bool = boolSlots(s) && boolApart(s) && implies(!s.initialized, !s.started) && implies(s.initialized, boolCurrent(s) && boolAhead(s))
+// the scratch array handed to the scorer has two slots and is not the pool's free list
+//@ spec boolScratch(ctx *search.SearchContext, s *BooleanSearcher) bool = ctx != nil && ctx.DocumentMatchPool != nil && s.scorer != nil && len(s.matches) == 2 && base(s.matches) != base(ctx.DocumentMatchPool.avail)
+// the cursor of the driving child
+//@ spec boolDrivingLast(s *BooleanSearcher) string = ite(s.mustSearcher != nil, s.mustSearcher.last, s.shouldSearcher.last)
 
 //@ func BooleanSearcher.initSearchers
 //@   props C08 C02
 //@   mode int
 //@   requires s != nil && ctx != nil && ctx.DocumentMatchPool != nil && !s.initialized && boolInv(s)
 //@   modifies fields(BooleanSearcher), fields(search.DocumentMatch), search.DocumentMatchPool.avail, mem(*search.DocumentMatch), search.Searcher.started, search.Searcher.last, search.Searcher.done
-//@   ensures implies(result == nil, s.initialized && boolInv(s)) && s.mustSearcher == old(s.mustSearcher) && s.shouldSearcher == old(s.shouldSearcher) && s.mustNotSearcher == old(s.mustNotSearcher) && s.done == old(s.done) && s.scorer == old(s.scorer)
+//@   ensures implies(result == nil, s.initialized && boolInv(s)) && s.mustSearcher == old(s.mustSearcher) && s.shouldSearcher == old(s.shouldSearcher) && s.mustNotSearcher == old(s.mustNotSearcher) && s.done == old(s.done) && s.scorer == old(s.scorer) && s.matches == old(s.matches)
+//@   ensures s.started == old(s.started) && s.last == old(s.last) && (base(ctx.DocumentMatchPool.avail) == old(base(ctx.DocumentMatchPool.avail)) || fresh(ctx.DocumentMatchPool.avail))
 
-//@ func BooleanSearcher.Next
-//@   props C08
+// advanceNextMust: the driving child moves to its next match (its current match goes back to the
+// pool unless it is the one being returned), and the candidate follows it
+//@ func BooleanSearcher.advanceNextMust
+//@   props C08 C02
 //@   mode int
-//@   trusted the merge loop of Next (must / should / must-not alignment, scoring) is not under contract; Advance relies on this contract
-//@   requires s != nil && ctx != nil && ctx.DocumentMatchPool != nil && boolInv(s)
-//@   modifies fields(BooleanSearcher), fields(search.DocumentMatch), search.DocumentMatchPool.avail, mem(*search.DocumentMatch), search.Searcher.started, search.Searcher.last, search.Searcher.done
-//@   ensures implies(result1 == nil, boolInv(s))
+//@   requires s != nil && ctx != nil && ctx.DocumentMatchPool != nil && s.initialized && boolSlots(s) && boolApart(s) && boolCurrent(s) && s.currentID != nil
+//@   requires skipReturn == nil || (s.mustSearcher != nil && skipReturn == s.currMust) || (s.mustSearcher == nil && skipReturn == s.currShould)
+//@   modifies s.currMust, s.currShould, s.currentID, fields(search.DocumentMatch), search.DocumentMatchPool.avail, mem(*search.DocumentMatch), search.Searcher.started, search.Searcher.last, search.Searcher.done
+//@   ensures implies(result == nil, boolSlots(s) && boolApart(s) && boolCurrent(s) && implies(s.currentID != nil, idKey(s.currentID) > old(idKey(s.currentID))))
+//@   ensures s.currMustNot == old(s.currMustNot) && implies(s.mustSearcher != nil, s.currShould == old(s.currShould)) && s.started == old(s.started) && s.last == old(s.last)
+//@   ensures implies(skipReturn != nil, skipReturn.IndexInternalID == old(skipReturn.IndexInternalID) && dmKey(skipReturn) == old(dmKey(skipReturn)))
+//@   ensures base(ctx.DocumentMatchPool.avail) == old(base(ctx.DocumentMatchPool.avail)) || fresh(ctx.DocumentMatchPool.avail)
 
-// Advance: the children behind the target are advanced to it, then Next aligns them.
+// Next: the candidate (the driving child's match) is checked against the must-not and should
+// children and either returned or skipped
+//@ func BooleanSearcher.Next
+//@   props C08 C02
+//@   mode int
+//@   requires s != nil && boolScratch(ctx, s) && boolInv(s)
+//@   modifies fields(BooleanSearcher), s.matches[*], fields(search.DocumentMatch), search.DocumentMatchPool.avail, mem(*search.DocumentMatch), search.Searcher.started, search.Searcher.last, search.Searcher.done
+//@   at return: ghost s.started = s.started || (result1 == nil && result0 != nil)
+//@   at return: ghost s.last = ite(result1 == nil && result0 != nil, dmKey(result0), s.last)
+//@   ensures implies(result1 == nil, boolInv(s) && boolScratch(ctx, s))
+//@   ensures s.mustSearcher == old(s.mustSearcher) && s.shouldSearcher == old(s.shouldSearcher) && s.mustNotSearcher == old(s.mustNotSearcher) && s.scorer == old(s.scorer) && s.matches == old(s.matches)
+// ids strictly ascending; never before the candidate at entry
+//@   ensures implies(result1 == nil && result0 != nil, ascending(old(s.started), old(s.last), result0) && s.started && s.last == dmKey(result0) && implies(old(s.initialized) && old(s.currentID) != nil, dmKey(result0) >= old(idKey(s.currentID))))
+//@   ensures implies(result0 == nil, s.started == old(s.started) && s.last == old(s.last))
+//@   ensures implies(old(s.initialized) && old(s.currentID) == nil, result0 == nil)
+//@   loop 0: invariant s.initialized && boolScratch(ctx, s) && boolSlots(s) && boolApart(s) && boolCurrent(s) && boolAhead(s) && rv == nil && !s.done
+//@   loop 0: invariant s.mustSearcher == old(s.mustSearcher) && s.shouldSearcher == old(s.shouldSearcher) && s.mustNotSearcher == old(s.mustNotSearcher) && s.scorer == old(s.scorer) && s.matches == old(s.matches) && s.started == old(s.started) && s.last == old(s.last)
+//@   loop 0: invariant implies(old(s.initialized) && old(s.currentID) != nil && s.currentID != nil, idKey(s.currentID) >= old(idKey(s.currentID)))
+//@   loop 0: invariant implies(old(s.initialized) && old(s.currentID) == nil, s.currentID == nil)
+
+// Advance: the children behind the target are advanced to it, then Next finds the next accepted candidate
 //@ func BooleanSearcher.Advance
 //@   props C08 C02
 //@   mode int
-//@   requires s != nil && ctx != nil && ctx.DocumentMatchPool != nil && boolInv(s)
-//@   modifies fields(BooleanSearcher), fields(search.DocumentMatch), search.DocumentMatchPool.avail, mem(*search.DocumentMatch), search.Searcher.started, search.Searcher.last, search.Searcher.done
-//@   ensures implies(result1 == nil, boolInv(s))
+//@   requires s != nil && boolScratch(ctx, s) && boolInv(s) && unconsumed(s.started, s.last, idKey(ID))
+//@   modifies fields(BooleanSearcher), s.matches[*], fields(search.DocumentMatch), search.DocumentMatchPool.avail, mem(*search.DocumentMatch), search.Searcher.started, search.Searcher.last, search.Searcher.done
+//@   at call s.Next#0: assert implies(s.currentID != nil, idKey(s.currentID) >= idKey(ID))
+//@   at return: ghost s.started = s.started || (result1 == nil && result0 != nil)
+//@   at return: ghost s.last = ite(result1 == nil && result0 != nil, dmKey(result0), s.last)
+//@   ensures implies(result1 == nil, boolInv(s) && boolScratch(ctx, s))
+// lands at or after the target, still ascending
+//@   ensures implies(result1 == nil && result0 != nil, dmKey(result0) >= idKey(ID) && ascending(old(s.started), old(s.last), result0) && s.started && s.last == dmKey(result0))
